@@ -69,3 +69,15 @@ package output
 //@   ensures [one_per_declaration] err == nil ==> len(r) == len(outputs)
 //@ loop #1
 //@   invariant [so_far] len(parsedOutputs) == rangeindex + 1
+
+// C01/C02/C09: the output hash covers every output record (not only content digests) and does not depend on the order
+// in which the records arrive (they are produced by concurrent writers).
+//@ func getOutputHash(outputs) (k, err)
+//@   pure
+//@   ensures [empty] len(outputs) == 0 ==> k == "" && err == nil
+//@   ensures [fn_of_the_bag_of_output_records] err == nil && len(outputs) > 0 ==>
+//@        k == H(concatArr(arr(sortseq(outDigestBag(arr(outputs), len(outputs)))), len(outputs)))
+//@ loop #1
+//@   invariant [digests_so_far] len(digests) == rangeindex + 1 && bagOf(digests) == outDigestBag(arr(outputs), rangeindex + 1)
+//@ loop #2
+//@   invariant [stream_so_far] stream[ref(hasher)] == concatArr(arr(digests), rangeindex + 1) && len(digests) == len(outputs) && digests == sortseq(outDigestBag(arr(outputs), len(outputs)))
